@@ -515,9 +515,22 @@ class PDE(SDEBase):
         """
         # check the cache
         cache = self._cache.get(backend.name, {})
-        if state.attributes == cache.get("state_attributes", None):
+        # the prepared expressions refer to the data arrays of constant fields
+        consts_buffers = tuple(
+            value._data_full
+            for value in self.consts.values()
+            if isinstance(value, DataFieldBase)
+        )
+        cached_buffers = cache.get("consts_buffers", None)
+        if (
+            state.attributes == cache.get("state_attributes", None)
+            and cached_buffers is not None
+            and len(cached_buffers) == len(consts_buffers)
+            and all(a is b for a, b in zip(cached_buffers, consts_buffers))
+        ):
             return cache  # this cache was already prepared
         cache = self._cache[backend.name] = {}  # clear cache, if there was any
+        cache["consts_buffers"] = consts_buffers
 
         # determine the dtype of the rhs
         if not np.iscomplexobj(state.data) and self.complex_valued:
